@@ -27,7 +27,7 @@ CLAIMED = {
    text="Static inference of how every integer of the library moves with the file's base offset; consistency of the constraint system is a parametricity proof sketch that parsing is invariant under placement (same control flow and trees, positions shifted by the offset difference, line:column unchanged), for all inputs and placements. Also decides that no placement-dependent value leaks into text or is cached outside File/FileSet/results. Does not decide C11's line/column arithmetic."),
  "C01": dict(ref="§4 C01", technique="ownership dataflow on alternative lists + forward value flow of curtailing sets (field-based) + guard dominance on context resets + path enumeration of ResultCache.Get with comparison-site and loop-exhaustion events + finite-domain folding of the sequence length predicates",
    text="Static rules deciding four structural lemmas of the Frost-Hafiz-Callaghan argument, each a necessary condition of completeness, for every grammar and input: no aliasing in alternative lists, curtailing-set propagation through every combinator, context/merge-flag reset only after progress, and the cache reuse condition (stored context, faithful replay, direction and key range of the reuse test). Soundness/completeness of the returned trees as a whole is not decided."),
- "C03": dict(ref="§4 C03", technique="dominance/post-dominance pairing of lookup-run-save in memoizing parsers, def-use of the cache key, who-may-construct scan for non-empty IntSets, effect scan for nondeterminism sources, map-range shape classification",
+ "C03": dict(ref="§4 C03", technique="dominance/post-dominance pairing of lookup-run-save in memoizing parsers and of the map store inside ResultCache.Save, def-use of the cache key, who-may-construct scan for non-empty IntSets, effect scan for nondeterminism sources, map-range shape classification",
    text="Static rules deciding, for every grammar and input: the wrapped parser runs only on a cache miss and its result is always saved under the lookup's key; stored, replayed and returned values are the wrapped call's own results; keys are unique per Memoize call; without left recursion all contexts are empty so entries are always reusable; the stored context is pruned exactly; parse-time code has no source of nondeterminism; cache entries are immutable. Equality of memoized and plain result lists as a relation between two executions is not decided."),
  "C02": dict(ref="§4 C02", technique="guard dominance on SSA (edge-dominating branch conditions) + phi-edge tracing of the left-recursion context at every hand-on site; shape recognition of memoizing parsers",
    text="Static path rules deciding the three lemmas behind the re-entry bound for every grammar and input: curtailment test dominates the wrapped call (K<=1), the wrapped call gets the incoming context incremented at the parser's own index, and every other hand-on of a context passes the incoming one unless a dominating guard proves progress of the position handed on (never across a loop back edge). The bound itself follows by a hand-written argument; termination of user parsers and value-level behaviour of IntMap/Remaining are not decided."),
